@@ -19,7 +19,7 @@ TMO = 17000            # ms; one `adv` = 10 s: a deadline passes during the seco
 PREDS = ["P_X10a_ValidatorBound", "P_X10a_GlobalBound", "P_X10a_WorkerBound", "P_X10a_QueueBound",
          "P_X10b_QueueFullExact", "P_X10b_ThrottleExact", "P_X10c_Conserve",
          "P_X10d_Account", "P_X10d_NoSilentLoss", "P_X10d_Seen", "P_X10d_Cause", "P_X10d_NoPenalty",
-         "P_X10e_Deadline", "P_X10e_Fires", "P_X10e_NoAbandon",
+         "P_X10e_Deadline", "P_X10e_Fires", "P_X10e_NoAbandon", "P_X10e_CancelOnReject",
          "P_X10f_LoopLive", "P_X10f_WorkConserving", "P_X10f_LocalUnaffected",
          "P_X10g_Registration", "P_X10g_Applicable", "P_X10g_Options"]
 
@@ -203,6 +203,8 @@ def directed(thorough):
     add("multi_orphan_keeps_validator_token", mkcfg(2, 1, 1, deafm),
         [msg("p1", "m1"), rel(1, "m1", R), msg("p1", "m2"), msg("p1", "n1"), rel(1, "m2", A), msg("p1", "n1"), rel(1, "n1", A), rel(3, "n1", A), msg("p2", "m3"),
          rel(1, "m3", I), rel(2, "m1", A), msg("p1", "m4"), rel(1, "m4", A), rel(2, "m4", A)])
+    add("multi_reject_cancels_sibling_with_timeout", mkcfg(2, 1, 2, [V(1, "D", thr=2, tmo=True, deaf=True), V(2, "T1", thr=2), V(3, "T2", thr=1, tmo=True)]),
+        [msg("p1", "m1"), msg("p1", "n1"), rel(2, "m1", R), rel(1, "n1", R), msg("p1", "m2"), rel(1, "m1", A), rel(1, "m2", A), rel(2, "m2", A)])
     add("multi_inline_ignore_then_async", mkcfg(2, 1, 1, [V(1, "D", inl=True), V(2, "T1", thr=1), V(3, "T2", thr=1)]),
         [msg("p1", "m1"), rel(1, "m1", I), msg("p1", "n1"), rel(1, "n1", A), rel(2, "m1", A), msg("p1", "n2"), rel(1, "n2", I), rel(3, "n2", R),
          msg("p1", "m2"), rel(1, "m2", R), msg("p1", "m3"), rel(1, "m3", A), rel(2, "m3", A)])
@@ -583,6 +585,11 @@ def selftest(ctx):
           _ln(11, 5, "rel", [_e("Exit", "m1", 5, 4, v=3, r=0, how="gate"), _e("Dlv", "m1", 5, 5), _e("Dl", "m1", 5, 6)], _x()),
           _ln(11, 6, "end", [], _x())]
     want |= {(11, "P_X10g_Registration"), (11, "P_X10g_Applicable")}
+    mv = [V(1, "D", thr=2, deaf=True), V(2, "T1", thr=1), V(3, "T2", inl=True)]
+    T += [_reset(15, gthr=2, vals=mv),
+          _ln(15, 1, "msg", [_e("Arr", "m1", 1, 1), _e("Val", "m1", 1, 2), _e("Enter", "m1", 1, 3, v=1), _e("Enter", "m1", 1, 4, v=2)], _x(g=1, vt=(1, 1, 0))),
+          _ln(15, 2, "rel", [_e("Exit", "m1", 2, 5, v=2, r=1, how="gate"), _e("Rej", "m1", 2, 6, why="R")], _x(g=0, vt=(1, 0, 0)))]
+    want |= {(15, "P_X10e_CancelOnReject")}
     T += [{"a": "opt", "scn": 12, "opt": "queue", "n": 0, "err": "", "panic": "", "got": 0},
           {"a": "opt", "scn": 13, "opt": "workers", "n": 3, "err": "", "panic": "", "got": 3},
           {"a": "opt", "scn": 14, "opt": "vconc", "n": 0, "err": "", "panic": "", "got": 5}]
@@ -604,6 +611,7 @@ OBLIGATIONS = [
     "all_workers_inside_inline_validators", "other_topic_served_while_validator_saturated",
     "ended_accept", "ended_reject", "ended_ignore", "ended_throttled_by_validator", "ended_by_deadline", "ended_by_cancel", "ended_out_of_range",
     "deadline_async", "deadline_inline", "deadline_ignored_late_verdict_counts", "no_deadline_without_option", "orphan_holds_validator_token",
+    "sibling_with_timeout_cancelled_on_reject",
     "queue_full_resend_validated", "throttled_resend_duplicate", "unregistered_while_running", "unregistered_while_queued", "new_validator_used",
     "registration_errors", "burst", "backlog_event_loop_parked", "local_publish_while_saturated", "churn_many_times_capacity",
     "penalty_counters_observed", "two_workers_concurrent",
@@ -702,6 +710,8 @@ def coverage_hits(s, tr, hits):
                     hit("deadline_async" if v in asyncv else "deadline_inline")
                 if e["how"] == "cancel":
                     hit("ended_by_cancel")
+                    if vc[v]["tmo"]:
+                        hit("sibling_with_timeout_cancelled_on_reject")
             if k == "Exit":
                 ent = open_inv.pop((v, m, e["loc"]), None)
                 if e["loc"]:
@@ -759,10 +769,11 @@ def run(ctx):
     st_self = selftest(ctx)
 
     # ---- scenarios: exhaustive for a tiny universe, seeded simulation for the large one, directed boundary schedules
-    tiny = [(1, 1, 1, ("-", "T1", "T2", "-"), (), (1, 1, 1, 1), (), (), "I"),
-            (1, 1, 2, ("-", "T1", "T2", "-"), (3,), (1, 1, 1, 1), (2,), (), "I")]
-    raw_bfs, tr_bfs, _ = run_gen(ctx, rng, tiny, "gen-bfs", walks=None, L=5 if not T else 6, min_emit=3, ids=("m1", "m2", "n1"), t2=("n1",),
-                                 blockers=(), maxw=1, copies=2, verdicts=("A", "R"), tick=2, bursts=[("m1", "m2")])
+    # (every stimulus sequence up to the bound is replayed: 1 configuration x length 3 at quick, 2 x length 4 at thorough)
+    tiny = [(1, 1, 1, ("-", "T1", "T2", "-"), (3,), (1, 1, 1, 1), (), (), "I"),
+            (1, 1, 2, ("-", "T1", "T2", "-"), (), (1, 1, 1, 1), (2,), (), "I")]
+    raw_bfs, tr_bfs, _ = run_gen(ctx, rng, tiny[:1] if not T else tiny, "gen-bfs", walks=None, L=3 if not T else 4, min_emit=1, ids=("m1", "m2", "n1"),
+                                 t2=("n1",), blockers=(), maxw=1, copies=2, verdicts=("A", "R"), tick=2, bursts=[("m1", "m2")])
     raw_sim, tr_sim, _ = run_gen(ctx, rng, gen_cfg_records(rng, 14 if not T else 40), "gen-sim", walks=350 if not T else 4000, L=12 if not T else 14)
     if T:
         raw2, t2_, _ = run_gen(ctx, rng, gen_cfg_records(rng, 30), "gen-sim-short", walks=3000, L=8, min_emit=3)
@@ -772,7 +783,7 @@ def run(ctx):
         raise vlib.Inconclusive("GenValBounds emitted nothing")
     raw_bfs.sort(key=lambda s: json.dumps(s, sort_keys=True))
     raw_sim.sort(key=lambda s: json.dumps(s, sort_keys=True))
-    lim_bfs, lim_sim = (150, 260) if not T else (1500, 3200)
+    lim_bfs, lim_sim = (600, 260) if not T else (9000, 3200)
     ch_bfs, n_bfs, _ = select(raw_bfs, rng, lim_bfs)
     exhaustive_bfs = n_bfs <= lim_bfs
     ch_sim, n_sim, n_classes = select(raw_sim, rng, lim_sim)
